@@ -459,3 +459,46 @@ func recordFlagRecordsRejection(f *ssa.Function, head *ssa.BasicBlock, nIter int
 	}
 	return false
 }
+
+// ---------------------------------------------------------------- ParseArgs: the list built by append (R12.4)
+
+// grownOnePerIteration: v is a slice a loop builds with append — a phi of a loop head that enters the loop as
+// make(T, 0, …) (or nil) and that EVERY back edge hands on as append(v, exactly one element). A back edge that
+// carries the list unchanged (an iteration that skips its element) or appends to something else does not qualify:
+// the list then does not hold one entry per element visited, and "everything after the first" loses arguments.
+func grownOnePerIteration(v ssa.Value) bool {
+	ph, ok := v.(*ssa.Phi)
+	if !ok {
+		return false
+	}
+	head := ph.Block()
+	entry, back := 0, 0
+	for i, e := range ph.Edges {
+		if !head.Dominates(head.Preds[i]) {
+			switch x := e.(type) {
+			case *ssa.MakeSlice:
+				if !isConstInt(0)(x.Len) {
+					return false
+				}
+			case *ssa.Const:
+				if x.Value != nil {
+					return false
+				}
+			default:
+				return false
+			}
+			entry++
+			continue
+		}
+		in, isIn := e.(ssa.Instruction)
+		if !isIn {
+			return false
+		}
+		l, el, isApp := keptListAppend(in, head)
+		if !isApp || l != ph || len(el) != 1 {
+			return false
+		}
+		back++
+	}
+	return entry > 0 && back > 0
+}
